@@ -433,6 +433,13 @@ class ObjV:
         self.attrs = dict(attrs or {})
 
 
+class ClosureV:
+    """A function defined inside the function being evaluated (captures the environment by reference)."""
+
+    def __init__(self, node, env, ctx):
+        self.node, self.env, self.ctx = node, env, ctx
+
+
 class BoundV:
     """A bound method used as a value (`self.m_gate` stored in a table of gates and called later)."""
 
@@ -763,6 +770,30 @@ class Evaluator:
                                  selfv if isinstance(selfv, ObjV) else ObjV(cls))
             raise Und(f"self.{name}")
 
+        # a function defined locally (helper closure)
+        if isinstance(f, ast.Name) and isinstance(env.get(f.id), ClosureV):
+            cl = env[f.id]
+            if len(self.call_stack) >= self.max_depth:
+                raise Und("inlining depth exceeded")
+            args, kwargs = self.eval_args(e, env, ctx)
+            a_ = cl.node.args
+            names = [x.arg for x in a_.posonlyargs + a_.args]
+            if len(args) > len(names) or a_.vararg or a_.kwarg:
+                raise Und("arguments of a local function")
+            e2 = dict(cl.env)
+            for nm, v_ in zip(names, args):
+                e2[nm] = v_
+            for k_, v_ in kwargs.items():
+                e2[k_] = v_
+            for nm, d_ in zip(names[len(names) - len(a_.defaults):], a_.defaults):
+                if nm not in e2 or (nm not in kwargs and names.index(nm) >= len(args) and nm in cl.env and nm not in kwargs):
+                    e2[nm] = self.ev(d_, cl.env, cl.ctx)
+            self.call_stack.append("<local>." + cl.node.name)
+            try:
+                r = self.run_body(cl.node.body, e2, cl.ctx)
+            finally:
+                self.call_stack.pop()
+            return NONE if r is _NORETURN else r
         # a bound method held in a local variable / table:  rates = self.m_gate; rates(v)
         if isinstance(f, ast.Name) and isinstance(env.get(f.id), BoundV):
             b = env[f.id]
@@ -994,6 +1025,9 @@ class Evaluator:
                     return r
                 continue
             if isinstance(st, (ast.Pass, ast.Assert)):
+                continue
+            if isinstance(st, ast.FunctionDef):
+                env[st.name] = ClosureV(st, env, ctx)
                 continue
             if isinstance(st, ast.For):
                 # only loops over a tuple/list value of abstract elements
